@@ -113,16 +113,35 @@ func (c *Ctx) writerLayout(fn *ssa.Function, depth int) ([]layoutEvent, []string
 			continue
 		}
 		f := core.Callee(call.Common())
+		// raw form: w.Write(buf[:]) on the io.Writer, buf a local holding an encoder result
+		rawWrite := false
+		if cc := call.Common(); cc.IsInvoke() && cc.Method.Name() == "Write" && len(cc.Args) == 1 {
+			if _, isParam := cc.Value.(*ssa.Parameter); isParam {
+				rawWrite = true
+			}
+		}
 		switch {
-		case core.IsFunc(f, "encoding/binary", "Write"):
+		case core.IsFunc(f, "encoding/binary", "Write") || rawWrite:
 			// data argument: interface made from the result of an encoder call
-			data := call.Call.Args[2]
+			var data ssa.Value
+			if rawWrite {
+				data = call.Call.Args[0]
+				if sl, isSl := data.(*ssa.Slice); isSl && wholeSlice(sl) {
+					if a, isAlloc := sl.X.(*ssa.Alloc); isAlloc {
+						if sts := allStoresTo(fn, a); len(sts) == 1 {
+							data = sts[0].Val
+						}
+					}
+				}
+			} else {
+				data = call.Call.Args[2]
+			}
 			if mi, ok := data.(*ssa.MakeInterface); ok {
 				data = mi.X
 			}
 			enc, ok := data.(*ssa.Call)
 			if !ok {
-				bad = append(bad, "binary.Write of something that is not an encoder result at "+c.P.Pos(call.Pos()))
+				bad = append(bad, "write of something that is not a complete encoder result at "+c.P.Pos(call.Pos()))
 				continue
 			}
 			ef := core.Callee(enc.Common())
